@@ -272,3 +272,38 @@ Proof.
     rewrite L1. rewrite !map_map, adjs_equal_map. cbn [pexec fold_left pstep vupd Nat.eqb map]. cbn [unflag flag andb].
     apply forallb_ext'. intros j. unfold v1, v2. reflexivity.
 Qed.
+
+(* ---------- 10. any read-only routine with a fresh result: its result is the function of the
+   argument contents, nothing pre-existing changes ---------- *)
+Lemma pexec_compute_fresh {A} (k : nat) (m : fn A) (rho : venv A) :
+  pexec [Compute (10 + k) m (seq 0 k)] rho (10 + k) = m (map rho (seq 0 k)).
+Proof. cbn [pexec fold_left pstep]. unfold vupd. now rewrite Nat.eqb_refl. Qed.
+
+Theorem refines_pure_h {A R} k (m : list (arr A) -> arr A) (out : arr A -> R) :
+  refines_readonly (pure_h k m out) no_pre (fun rho => out (m (map rho (seq 0 k)))).
+Proof.
+  apply refines_readonly_intro; [reflexivity | reflexivity |].
+  intros rho _. unfold v_pure, pure_h. cbn [v_prog v_rvars v_rfn map]. unfold a0. cbn [nth].
+  now rewrite pexec_compute_fresh.
+Qed.
+
+(* the valued programs have the footprints of their entries in the table of Model/Heap.v
+   (what Check/C20.v compares the observed modifications with) *)
+Definition table_footprint (id : Z) : list var :=
+  match find_routine id with Some r => footprint r | None => [] end.
+Lemma valued_footprints :
+  (forall A cmp cdf EL TL alt, written_args (v_prog (@mw_h A cmp cdf EL TL alt)) [] = table_footprint 1) /\
+  (forall w q, written_args (v_prog (quantile_h w false q)) [] = table_footprint 2) /\
+  (forall w, written_args (v_prog (iqr_h w false)) [] = table_footprint 3) /\
+  (forall N lo hi, written_args (v_prog (sample_ci_h N lo hi false)) [] = table_footprint 4) /\
+  (forall d s x, written_args (v_prog (loess_h d s x)) [] = table_footprint 5) /\
+  (forall A R k m out, written_args (v_prog (@pure_h A R k m out)) [] = table_footprint 11) /\
+  (written_args (v_prog (sort_h true false)) [] = rev (table_footprint 20)) /\
+  (written_args (v_prog reverse_h) [] = table_footprint 21) /\
+  (forall b o g, written_args (v_prog (lin_nice_h b o g)) [] = table_footprint 22) /\
+  (forall c, written_args (v_prog (set_clamp_h c)) [] = table_footprint 22) /\
+  (forall x, written_args (v_prog (add_h x)) [] = table_footprint 23) /\
+  (forall i, written_args (v_prog (mark_h i)) [] = table_footprint 23) /\
+  (written_args (v_prog combine_h) [] = table_footprint 24) /\
+  (forall sc w kn b x, written_args (v_prog (kde_pdf_h sc w kn b x)) [] = table_footprint 25).
+Proof. repeat split; intros; try reflexivity; try (destruct w; reflexivity). Qed.
